@@ -26,7 +26,7 @@ open Kmip Kmip.Key
 
 namespace Driver.KeyDrv
 
-def sampleRsa : Toy.RsaPriv := { n := 3233, d := 2753, p := 61, q := 53 }
+def sampleRsa : Toy.RsaPriv := { n := 3233, d := 2753, primes := [61, 53] }
 def sampleRsaPub : Toy.RsaPub := { n := 3233 }
 def sampleEc : Toy.EcPriv := { crv := 1, d := 42 }
 def sampleEcPub (c : Nat) : Toy.EcPub := { crv := Toy.curveIx c, x := 17, y := 23 }
@@ -38,7 +38,7 @@ def resOpt {α : Type} (r : Res α) : Option α :=
 
 def parseBytesKind (s : String) : Option Bytes :=
   match s with
-  | "pkcs1priv" => some (Toy.ops.marshalPKCS1Priv sampleRsa)
+  | "pkcs1priv" => resOpt (Toy.ops.marshalPKCS1Priv sampleRsa)
   | "pkcs1pub" => some (Toy.ops.marshalPKCS1Pub sampleRsaPub)
   | "pkcs8rsa" => resOpt (Toy.marshalPKCS8 (.rsa sampleRsa))
   | "pkcs8ec" => resOpt (Toy.marshalPKCS8 (.ecdsa sampleEc))
@@ -187,7 +187,7 @@ def slotName (m : Material) : String :=
 def renderReg (r : Res Obj) : String :=
   match r with
   | .err _ => "err"
-  | .panic m => "panic " ++ m
+  | .panic _ => "panic"
   | .ok o =>
     match o.keyBlock? with
     | none => "ok type=" ++ toString o.typeCode
@@ -198,38 +198,59 @@ def renderReg (r : Res Obj) : String :=
       "ok type=" ++ toString o.typeCode ++ " f=" ++ toString kb.format ++ " c=" ++ toString kb.comp ++
         " alg=" ++ toString kb.alg ++ " len=" ++ toString kb.len ++ " slot=" ++ slot
 
+/-- the one-bit `KeyFormat` a KMIP key format type stands for, per kind of key. -/
+def fmtBit (k : KeyKind) (ft : Nat) : Option Nat :=
+  match k, ft with
+  | .rsaPriv, 3 => some kfPKCS1 | .rsaPriv, 4 => some kfPKCS8 | .rsaPriv, 10 => some kfTransparent
+  | .rsaPub, 3 => some kfPKCS1 | .rsaPub, 5 => some kfX509 | .rsaPub, 11 => some kfTransparent
+  | .ecPriv, 6 => some kfSEC1 | .ecPriv, 4 => some kfPKCS8 | .ecPriv, 14 => some kfTransparent
+  | .ecPriv, 20 => some kfTransparent
+  | .ecPub, 5 => some kfX509 | .ecPub, 15 => some kfTransparent | .ecPub, 21 => some kfTransparent
+  | .sym, 1 => some kfRAW | .sym, 7 => some kfTransparent
+  | .secret, 1 => some kfRAW
+  | _, _ => none
+
+def toyPrimes (np : Nat) : List Nat := ([5, 7, 11, 13, 17, 19, 23, 29] : List Nat).take np
+
+/-- `key.reg <kind> <mask> <version> <observed KMIP key format type> <parameters>`: is the observed format an
+    admissible choice for the mask, and what does the builder produce in that format?  (The priority the
+    library gives to several requested formats is an input here, not something the model predicts.) -/
 def reg (arg : String) : String :=
   match arg.splitOn " " with
-  | kind :: kf :: ver :: params =>
-    match kf.toNat?, parseVer ver with
-    | some kf, some ver =>
+  | kind :: kf :: ver :: ft :: params =>
+    match kf.toNat?, parseVer ver, ft.toNat? with
+    | some kf, some ver, some ft =>
+      let go (k : KeyKind) (key : AnyKey Toy.ops) : String :=
+        match fmtBit k ft with
+        | none => "adm=false"
+        | some f => "adm=" ++ toString (admissible k kf f) ++ " " ++ renderReg (registerF Toy.ops f ver key)
       match kind, params with
-      | "rsapriv", [n] =>
-        match n.toNat? with
-        | some n => renderReg (register Toy.ops kf ver (.rsaPriv { n := n, d := 3, p := 5, q := 7 }))
-        | none => "bad-op"
+      | "rsapriv", [n, np] =>
+        match n.toNat?, np.toNat? with
+        | some n, some np => go .rsaPriv (.rsaPriv { n := n, d := 3, primes := toyPrimes np })
+        | _, _ => "bad-op"
       | "rsapub", [n] =>
         match n.toNat? with
-        | some n => renderReg (register Toy.ops kf ver (.rsaPub { n := n }))
+        | some n => go .rsaPub (.rsaPub { n := n })
         | none => "bad-op"
       | "ecpriv", [c] =>
         match c.toNat? with
-        | some c => if curveSupported c then renderReg (register Toy.ops kf ver (.ecPriv { crv := Toy.curveIx c, d := 5 })) else "bad-op"
+        | some c => if curveSupported c then go .ecPriv (.ecPriv { crv := Toy.curveIx c, d := 5 }) else "bad-op"
         | none => "bad-op"
       | "ecpub", [c] =>
         match c.toNat? with
-        | some c => if curveSupported c then renderReg (register Toy.ops kf ver (.ecPub (sampleEcPub c))) else "bad-op"
+        | some c => if curveSupported c then go .ecPub (.ecPub (sampleEcPub c)) else "bad-op"
         | none => "bad-op"
       | "sym", [alg, len] =>
         match alg.toNat?, len.toNat? with
-        | some alg, some len => renderReg (register Toy.ops kf ver (.sym alg (List.replicate len 0)))
+        | some alg, some len => go .sym (.sym alg (List.replicate len 0))
         | _, _ => "bad-op"
       | "secret", [kind, len] =>
         match kind.toNat?, len.toNat? with
-        | some kind, some len => renderReg (register Toy.ops kf ver (.secret kind (List.replicate len 0)))
+        | some kind, some len => go .secret (.secret kind (List.replicate len 0))
         | _, _ => "bad-op"
       | _, _ => "bad-op"
-    | _, _ => "bad-op"
+    | _, _, _ => "bad-op"
   | _ => "bad-op"
 
 end Driver.KeyDrv
